@@ -47,11 +47,13 @@ def exhaustive_groups(small):
     leaves1 = [T.ANY, T.NUMBER, T.NAME, T.tc("/a"), T.tc("/a/b"), T.tc("/ab"), T.tsing(T.cname("/a/b")),
                T.tc("/bot")]
     leaves2 = [T.NUMBER, T.tc("/a"), T.tc("/a/b")]
+    if small:       # quick tier: a sample of the grammar, not claimed exhaustive
+        leaves1 = [T.ANY, T.NAME, T.tc("/a"), T.tc("/a/b"), T.tc("/ab"), T.tsing(T.cname("/a/b"))]
     tys = T.grammar_depth2(leaves1, leaves2, [T.STRING, T.ANY], small=small)
     import random
     rng = random.Random(12)                 # the universe of the exhaustive block is fixed
     consts = T.universe_for(rng, tys, per_type=1, extra=0)
-    consts = consts[:120]
+    consts = consts[:(70 if small else 120)]
     n1 = len([t for t in tys if T.ty_depth(t) <= 1])
     step = 2 if not small else 5
     lists = [[i, j] for i in range(0, n1, step) for j in range(0, n1, step)]
@@ -305,7 +307,7 @@ def run(ck):
         g["pairs"] = True
         groups.append(g)
     ncorpus = len(groups)
-    nmain, nwild = ck.n(24, 300), ck.n(8, 120)
+    nmain, nwild = ck.n(20, 300), ck.n(6, 120)
     for _ in range(nmain):
         depth = rng.choice([1, 2, 2, 3, 3, 4])
         groups.append(make_group(rng, rng.choice([8, 10, 12]), depth, False, "nice-by-construction"))
